@@ -17,6 +17,9 @@ pub enum Manip {
     RemoveCurrent,
     /// remove the i-th oldest rotated file (gap in the numbering)
     RemoveRotated(usize),
+    /// number namings: renumber the rotated files (order kept) so that the highest index becomes
+    /// 99998 - the following rotations cross the padded width (r99999 -> r100000)
+    ShiftNumbersHigh,
 }
 
 #[derive(Clone, Debug, Serialize, Deserialize)]
@@ -77,6 +80,36 @@ pub fn apply_manip(cfg: &FileCfg, dir: &Path, m: &Manip) {
             for f in &fam {
                 if matches!(f.parsed.kind, Kind::Current | Kind::Plain) {
                     let _ = std::fs::remove_file(dir.join(&f.name));
+                }
+            }
+        }
+        Manip::ShiftNumbersHigh => {
+            if !matches!(cfg.nam(), Some(Nam::Numbers | Nam::NumbersDirect)) {
+                return;
+            }
+            let mut rot: Vec<(u64, String)> = fam
+                .iter()
+                .filter_map(|f| match f.parsed.kind {
+                    Kind::Rotated(crate::observe::Key::Num(n)) => Some((n, f.name.clone())),
+                    _ => None,
+                })
+                .collect();
+            let Some(max) = rot.iter().map(|(n, _)| *n).max() else {
+                return;
+            };
+            if max >= 99_000 {
+                return;
+            }
+            let shift = 99_998 - max;
+            rot.sort();
+            rot.reverse();
+            for (n, name) in rot {
+                let old = format!("r{n:05}");
+                let new = format!("r{:05}", n + shift);
+                // the infix is the last occurrence of the number in the name
+                if let Some(pos) = name.rfind(&old) {
+                    let renamed = format!("{}{}{}", &name[..pos], new, &name[pos + old.len()..]);
+                    let _ = std::fs::rename(dir.join(&name), dir.join(renamed));
                 }
             }
         }
@@ -203,7 +236,7 @@ pub fn runs_strat(cfg: &FileCfg, max_runs: usize, with_manips: bool, max_ops: us
     let le = cfg.line_ending().len();
     let manip = if with_manips {
         prop::collection::vec(
-            prop_oneof![Just(Manip::GzipRotated), Just(Manip::RemoveCurrent), (0usize..8).prop_map(Manip::RemoveRotated)],
+            prop_oneof![3 => Just(Manip::GzipRotated), 3 => Just(Manip::RemoveCurrent), 3 => (0usize..8).prop_map(Manip::RemoveRotated), 2 => Just(Manip::ShiftNumbersHigh)],
             0..2,
         )
         .boxed()
